@@ -191,7 +191,10 @@ def write_shard(path, cases):
 
 def eval_shard(path):
     d = os.path.dirname(path)
-    p = run(["coqc", "-Q", COQ, "VG", path], cwd=d, timeout=1800)
+    try:
+        p = run(["coqc", "-Q", COQ, "VG", path], cwd=d, timeout=420)
+    except subprocess.TimeoutExpired:
+        return None, "coqc timed out on shard (model evaluation too slow)"
     if p.returncode != 0:
         return None, p.stderr[-2000:]
     m = re.search(r"res\s*=\s*\[(.*?)\]\s*:\s*list Z", p.stdout, re.S)
